@@ -58,6 +58,8 @@ def one_writer(ctx, r):
                                   {"trace": trace + [step], "seen": view[:6]})
                     return
                 res = pk.resume(); pk = None
+                if res.get("tracer_error"):      # strace itself failed: the run says nothing about ergo
+                    ctx.count(1, key=("skipped: tracer error",)); continue
                 if res["exit"] != 0:
                     ctx.tie_broken("sched", {"what": "parked writer did not finish cleanly", "exit": res["exit"], "stderr": res["stderr"][:200]})
                     return
